@@ -113,7 +113,7 @@ Qed.
 
 Theorem chk_C03_sound n : chk_C03 n = [] -> C03_on n.
 Proof.
-  unfold chk_C03. intros H. apply app_nil in H. destruct H as (Ha & Hp).
+  unfold chk_C03. intros H. apply app_nil in H. destruct H as (Ha & Hp). apply app_nil in Hp. destruct Hp as (Hp & _).
   apply guard_nil, str_eqb_eq in Ha. split; [exact Ha|].
   intros s t Hs Ht Hne Hm.
   pose proof (flat_map_nil _ _ Hp (s, t) (ordered_pairs_In n s t Hs Ht Hne)) as H.
